@@ -237,6 +237,22 @@ func genWireLimits(repo string) (string, error) {
 	def("stackMaxSerialized", stackitem.MaxSerialized)
 	def("stackMaxKeySize", stackitem.MaxKeySize)
 	def("bigintMaxBytesLen", bigint.MaxBytesLen)
+	def("itemAnyT", int64(stackitem.AnyT))
+	def("itemPointerT", int64(stackitem.PointerT))
+	def("itemBooleanT", int64(stackitem.BooleanT))
+	def("itemIntegerT", int64(stackitem.IntegerT))
+	def("itemByteArrayT", int64(stackitem.ByteArrayT))
+	def("itemBufferT", int64(stackitem.BufferT))
+	def("itemArrayT", int64(stackitem.ArrayT))
+	def("itemStructT", int64(stackitem.StructT))
+	def("itemMapT", int64(stackitem.MapT))
+	def("itemInteropT", int64(stackitem.InteropT))
+	def("itemInvalidT", int64(stackitem.InvalidT))
+	def("mptBranchT", int64(mpt.BranchT))
+	def("mptExtensionT", int64(mpt.ExtensionT))
+	def("mptLeafT", int64(mpt.LeafT))
+	def("mptHashT", int64(mpt.HashT))
+	def("mptEmptyT", int64(mpt.EmptyT))
 	// MPT
 	v, err = wlSrcConst(repo, "pkg/core/mpt", "maxPathLength")
 	if err != nil {
